@@ -82,7 +82,7 @@ CHECKS['C15'] = dict(
 
 _TBL = H('h_table.c', 'asan')
 _tbl_bounds = {'quick': 'structure sweep: all increasing key sequences of length<=4 from K9={e,00,0000,01,7f,80,8000,ff,ffff} x value sizes {0,1,600}^n x 6 compression types x restart {1,2,16} x block size 1024 x foreign prefix {0,13}; cadence sweep n in {r-1,r,r+1,2r,2r+1,100,1000} for r in {1,2,3,16,17} x 3 key families; length sweep (klen,vlen) in {0,1,127,128,129,16383,16384,16385}^2 alone and between two small entries; level sweep 40 levels INT_MIN..INT_MAX x 6 types; option magnitudes: block size {1,1023,1025,65536,2^31-1,2^31,2^32-1,2^32,2^32+1,2^40+5,2^63,2^64-1} x restart {1,16,1000} x 6 types x prefix {0,13}',
-               'thorough': 'as quick with sequences of length<=5, value sizes {0,1,600,1100}, restart {1,2,3,16,17}, block size {1024,1025,4096}, prefix {0,1,13,4096}, lengths up to 2^21; giant: default options with one value of 2^30 incompressible bytes, and zlib with block size 2^33 holding two values of 2^31 zero bytes (one data block above 4 GiB)'}
+               'thorough': 'as quick with sequences of length<=5, value sizes {0,1,600,1100}, restart {1,2,3,16,17}, block size {1024,1025,4096}, prefix {0,1,13,4096}, lengths up to 2^21; giant: one uncompressed value of 2^31+2^20 bytes (a stored block above the per-call write limit of the kernel), default options with one value of 2^30 incompressible bytes, and zlib with block size 2^33 holding two values of 2^31 zero bytes (one data block above 4 GiB)'}
 
 CHECKS['C01'] = dict(
     level=MC, engine='seqx',
@@ -318,7 +318,7 @@ CHECKS['C14'] = dict(
     budget={'quick': 420, 'thorough': 3000},
 )
 
-_WF = H('h_wfault.c', 'asan', tu_flags={'mtbl/writer.c': ['-Dwrite=vf_write']})
+_WF = H('h_wfault.c', 'asan', tu_flags={'mtbl/writer.c': ['-Dwrite=vf_write', '-Dwritev=vf_writev', '-Dpwrite=vf_pwrite']})
 CHECKS['C20'] = dict(
     level=FE, engine='envshim',
     technique='exhaustive enumeration of fault scripts for write(2): every outcome (full, EINTR, EINTR x3, short write of every length, EIO, ENOSPC, return 0) at every write call, all scripts with at most D deviations, on the real writer through a compile-time seam',
